@@ -2,64 +2,142 @@ import Ecal.Model.Eval
 /-!
 C06 — the evaluator model (`Ecal.Ev.eval`) never yields `Sig.panic` on the sub-language `Frag`.
 
-Technique: a Hoare-style predicate `NPQ m Q` on the evaluator monad ("`m` never ends in `panic`, a normal
-result satisfies `Q`") with rules for `pure`, `throw`, `>>=`; strong induction on the fuel with one case
-per construct (the operator helpers `numVal numOp boolOp` of the mutual block take the fuel one lower
-and call `eval` one lower again).
+* `Frag` (mutual with `FragEntry`): per node kind, the shape the evaluator relies on (token present, child
+  count, children themselves in the fragment). It grows construct by construct.
+* `Inv : St → Prop`: the declarations in the function table and the trees in the interpolation table are in
+  `Frag` (nothing about list / map / scope references or function ids is needed: every lookup in the model
+  has a default, and a dangling function id is an `unsupported` outcome).
+* `NPQ m Q`: from a state satisfying `Inv`, `m` never ends in `panic`, leaves a state satisfying `Inv`, and a
+  normal result satisfies `Q` — with rules for `pure throw >>= <$> get set modify attemptE forIn foldlM mapM`
+  and the tactic `np` (syntax-directed, unification at reducible transparency, lemmas registered with
+  `macro_rules | `(tactic| np_lem)`).
+* helper lemmas: every heap / scope primitive and access-path function (`getValue setValue containerGet
+  containerWalk listIndex …`, i.e. the three repaired negative-index sites), the printer (`sprint`), deep
+  equality (`deepEq goEq`).
+* `eval_frag_np`: strong induction on the fuel, one case per construct.
 -/
 namespace Ecal.Lemmas.C06
 open Ecal.Ev
 open Ecal.Parse (Node)
 open Ecal.Lex (Tok)
 
-/-- `m` never ends in `panic`; a normal result satisfies `Q` -/
+mutual
+/-- the sub-language of `eval_never_panics_partial`: shape conditions per node kind (what the parser
+    guarantees and the evaluator relies on) -/
+inductive Frag : Node → Prop
+  | const (n : Node) (t : Tok) (ht : n.tok = some t) (h : n.name = "true" ∨ n.name = "false" ∨ n.name = "null") : Frag n
+  | number (n : Node) (t : Tok) (ht : n.tok = some t) (h : n.name = "number") : Frag n
+  | rawString (n : Node) (t : Tok) (ht : n.tok = some t) (h : n.name = "string") (hr : t.allowEscapes = false) : Frag n
+  | unary (n : Node) (t : Tok) (c : Node) (ht : n.tok = some t)
+      (h : n.name = "plus" ∨ n.name = "minus" ∨ n.name = "not" ∨ n.name = "guard")
+      (hc : n.children = [some c]) (fc : Frag c) : Frag n
+  | binary (n : Node) (t : Tok) (a b : Node) (ht : n.tok = some t)
+      (h : n.name = "plus" ∨ n.name = "minus" ∨ n.name = "times" ∨ n.name = "div" ∨ n.name = "divint" ∨
+           n.name = "modint" ∨ n.name = "and" ∨ n.name = "or" ∨ n.name = "==" ∨ n.name = "!=" ∨
+           n.name = ">=" ∨ n.name = ">" ∨ n.name = "<=" ∨ n.name = "<" ∨ n.name = "in" ∨ n.name = "notin" ∨
+           n.name = "hasprefix" ∨ n.name = "hassuffix")
+      (hc : n.children = [some a, some b]) (fa : Frag a) (fb : Frag b) : Frag n
+  | signal (n : Node) (t : Tok) (ht : n.tok = some t) (h : n.name = "break" ∨ n.name = "continue") : Frag n
+  | ret0 (n : Node) (t : Tok) (ht : n.tok = some t) (h : n.name = "return") (hc : n.children = []) : Frag n
+  | ret1 (n : Node) (t : Tok) (c : Node) (ht : n.tok = some t) (h : n.name = "return") (hc : n.children = [some c]) (fc : Frag c) : Frag n
+  | statements (n : Node) (t : Tok) (kids : List Node) (ht : n.tok = some t) (h : n.name = "statements")
+      (hc : n.children = kids.map some) (hk : ∀ c, c ∈ kids → Frag c) : Frag n
+  | list (n : Node) (t : Tok) (kids : List Node) (ht : n.tok = some t) (h : n.name = "list")
+      (hc : n.children = kids.map some) (hk : ∀ c, c ∈ kids → Frag c) : Frag n
+  | map (n : Node) (t : Tok) (kids : List Node) (ht : n.tok = some t) (h : n.name = "map")
+      (hc : n.children = kids.map some) (hk : ∀ c, c ∈ kids → FragEntry c) : Frag n
+  | ident0 (n : Node) (t : Tok) (ht : n.tok = some t) (h : n.name = "identifier") (hc : n.children = []) : Frag n
+  | assign (n : Node) (t : Tok) (lhs rhs : Node) (ht : n.tok = some t) (h : n.name = ":=")
+      (hc : n.children = [some lhs, some rhs]) (hl : lhs.name = "identifier") (fl : Frag lhs) (fr : Frag rhs) : Frag n
+  | assignLet (n : Node) (t : Tok) (lhs lv rhs : Node) (ht : n.tok = some t) (h : n.name = ":=")
+      (hc : n.children = [some lhs, some rhs]) (hl : lhs.name = "let") (hlc : lhs.children = [some lv])
+      (hlv : lv.name = "identifier") (flv : Frag lv) (fl : Frag lhs) (fr : Frag rhs) : Frag n
+  | letN (n : Node) (t : Tok) (lv : Node) (ht : n.tok = some t) (h : n.name = "let")
+      (hc : n.children = [some lv]) (fl : Frag lv) : Frag n
+  | ifN (n : Node) (t : Tok) (pairs : List (Node × Node)) (ht : n.tok = some t) (h : n.name = "if")
+      (hc : n.children = pairs.flatMap (fun p => [some p.1, some p.2]))
+      (hg : ∀ p, p ∈ pairs → Frag p.1) (hb : ∀ p, p ∈ pairs → Frag p.2) : Frag n
+  | loopGuard (n : Node) (t : Tok) (c0 body : Node) (ht : n.tok = some t) (h : n.name = "loop")
+      (hc : n.children = [some c0, some body]) (h0 : c0.name = "guard") (f0 : Frag c0) (fb : Frag body) : Frag n
+  | istring (n : Node) (t : Tok) (ht : n.tok = some t) (h : n.name = "string") : Frag n
+  | inert (n : Node) (t : Tok) (ht : n.tok = some t)
+      (h : n.name = "like" ∨ n.name = "kvp" ∨ n.name = "preset" ∨ n.name = "params" ∨ n.name = "funccall" ∨
+           n.name = "compaccess" ∨ n.name = "as" ∨ n.name = "except" ∨ n.name = "otherwise" ∨ n.name = "finally" ∨
+           n.name = "sink" ∨ n.name = "import" ∨ n.name = "mutex") : Frag n
+/-- an entry of a map literal: not a key-value pair (the evaluator answers with an error), or a pair of expressions -/
+inductive FragEntry : Node → Prop
+  | bad (c : Node) (h : c.name ≠ "kvp" ∨ c.children.length ≠ 2) : FragEntry c
+  | kvp (c k v : Node) (hc : c.children = [some k, some v]) (fk : Frag k) (fv : Frag v) : FragEntry c
+end
+
+def Inv (s : St) : Prop :=
+  (∀ fr, fr ∈ s.funcs.toList → Frag fr.decl) ∧ (∀ code n, (code, InterpEntry.ast n) ∈ s.interp → Frag n)
+
+/-- from a state satisfying `Inv`, `m` never ends in `panic`, leaves a state satisfying `Inv`, and a normal result satisfies `Q` -/
 def NPQ {α : Type} (m : M α) (Q : α → Prop) : Prop :=
-  ∀ s, match (m.run.run s).1 with
+  ∀ s, Inv s → Inv (m.run.run s).2 ∧
+    match (m.run.run s).1 with
     | .ok a => Q a
     | .error e => e ≠ Sig.panic
 
 abbrev NP {α : Type} (m : M α) : Prop := NPQ m (fun _ => True)
 
 theorem NPQ.pure {α : Type} (a : α) (Q : α → Prop) (h : Q a) : NPQ (pure a : M α) Q := by
-  intro s; exact h
+  intro s hs; exact ⟨hs, h⟩
 
 theorem NPQ.throw {α : Type} (e : Sig) (Q : α → Prop) (h : e ≠ Sig.panic) : NPQ (throw e : M α) Q := by
-  intro s; exact h
+  intro s hs; exact ⟨hs, h⟩
 
 theorem NPQ.bind {α β : Type} (m : M α) (f : α → M β) (Q : α → Prop) (R : β → Prop)
     (hm : NPQ m Q) (hf : ∀ a, Q a → NPQ (f a) R) : NPQ (m >>= f) R := by
-  intro s
-  have h1 := hm s
+  intro s hs
+  have h1 := hm s hs
   rw [ExceptT.run_bind, StateT.run_bind]
   cases hr : m.run.run s with
   | mk r s' =>
     rw [hr] at h1
     cases r with
-    | ok a => exact hf a h1 s'
+    | ok a => exact hf a h1.2 s' h1.1
     | error e => exact h1
 
 theorem NPQ.mono {α : Type} (m : M α) (Q R : α → Prop) (hm : NPQ m Q) (h : ∀ a, Q a → R a) : NPQ m R := by
-  intro s; have := hm s; split at this <;> simp_all
+  intro s hs
+  have := hm s hs
+  refine ⟨this.1, ?_⟩
+  have h2 := this.2
+  split at h2 <;> simp_all
+
+theorem NPQ.get : NPQ (get : M St) Inv := by
+  intro s hs; exact ⟨hs, hs⟩
+
+theorem NPQ.set (s' : St) (h : Inv s') : NPQ (set s' : M Unit) (fun _ => True) := by
+  intro s hs; exact ⟨h, trivial⟩
+
+theorem NPQ.modify (f : St → St) (h : ∀ s, Inv s → Inv (f s)) : NPQ (modify f : M Unit) (fun _ => True) := by
+  intro s hs; exact ⟨h s hs, trivial⟩
+
+theorem NPQ.attemptE {α : Type} (m : M α) (Q : α → Prop) (hm : NPQ m Q) :
+    NPQ (attemptE m) (fun r => match r with | .ok a => Q a | .error e => e ≠ Sig.panic) := by
+  intro s hs
+  have h1 := hm s hs
+  show Inv (m.run.run s).2 ∧ _
+  refine ⟨h1.1, ?_⟩
+  show (match (m.run.run s).1 with | .ok a => Q a | .error e => e ≠ Sig.panic)
+  exact h1.2
+
+theorem NPQ.get' : NP (MonadState.get : M St) := NPQ.mono _ _ _ NPQ.get (fun _ _ => trivial)
 
 theorem rtErr_ne_panic (t : String) (n : Node) : rtErr t n ≠ Sig.panic := by
   unfold rtErr; split <;> simp
 
-/-- the sub-language of `eval_never_panics_partial` -/
-inductive Frag : Node → Prop
-  | const (n : Node) (h : n.name = "true" ∨ n.name = "false" ∨ n.name = "null") : Frag n
-  | number (n : Node) (t : Tok) (h : n.name = "number") (ht : n.tok = some t) : Frag n
-  | rawString (n : Node) (t : Tok) (h : n.name = "string") (ht : n.tok = some t) (hr : t.allowEscapes = false) : Frag n
-  | unary (n c : Node) (h : n.name = "plus" ∨ n.name = "minus" ∨ n.name = "not" ∨ n.name = "guard")
-      (hc : n.children = [some c]) (fc : Frag c) : Frag n
-  | binary (n a b : Node)
-      (h : n.name = "plus" ∨ n.name = "minus" ∨ n.name = "times" ∨ n.name = "div" ∨ n.name = "divint" ∨
-           n.name = "modint" ∨ n.name = "and" ∨ n.name = "or")
-      (hc : n.children = [some a, some b]) (fa : Frag a) (fb : Frag b) : Frag n
-  | signal (n : Node) (h : n.name = "break" ∨ n.name = "continue") : Frag n
-  | ret0 (n : Node) (h : n.name = "return") (hc : n.children = []) : Frag n
-  | ret1 (n c : Node) (h : n.name = "return") (hc : n.children = [some c]) (fc : Frag c) : Frag n
-  | statements (n : Node) (kids : List Node) (h : n.name = "statements") (hc : n.children = kids.map some)
-      (hk : ∀ c, c ∈ kids → Frag c) : Frag n
+theorem NPQ.foldlM {α β : Type} (l : List α) (g : β → α → M β)
+    (h : ∀ a, a ∈ l → ∀ b, NP (g b a)) : ∀ init, NP (l.foldlM g init) := by
+  induction l with
+  | nil => intro init; simp only [List.foldlM_nil]; exact NPQ.pure _ (fun _ => True) trivial
+  | cons x xs ih =>
+    intro init
+    simp only [List.foldlM_cons]
+    exact NPQ.bind _ _ (fun _ => True) _ (h x (by simp) init) (fun r _ => ih (fun a ha => h a (by simp [ha])) r)
 
 theorem NPQ.forIn {α β : Type} (l : List α) (body : α → β → M (ForInStep β))
     (h : ∀ a, a ∈ l → ∀ b, NP (body a b)) : ∀ init, NP (forIn l init body) := by
@@ -73,91 +151,392 @@ theorem NPQ.forIn {α β : Type} (l : List α) (body : α → β → M (ForInSte
     | done b => exact NPQ.pure _ (fun _ => True) trivial
     | yield b => exact ih (fun a ha => h a (by simp [ha])) b
 
-theorem NPQ.foldlM {α β : Type} (l : List α) (g : β → α → M β)
-    (h : ∀ a, a ∈ l → ∀ b, NP (g b a)) : ∀ init, NP (l.foldlM g init) := by
+theorem NPQ.mapM {α β : Type} (l : List α) (g : α → M β) (h : ∀ a, a ∈ l → NP (g a)) : NP (l.mapM g) := by
   induction l with
-  | nil => intro init; simp only [List.foldlM_nil]; exact NPQ.pure _ (fun _ => True) trivial
+  | nil => simp only [List.mapM_nil]; exact NPQ.pure _ (fun _ => True) trivial
   | cons x xs ih =>
-    intro init
-    simp only [List.foldlM_cons]
-    exact NPQ.bind _ _ (fun _ => True) _ (h x (by simp) init) (fun r _ => ih (fun a ha => h a (by simp [ha])) r)
+    simp only [List.mapM_cons]
+    refine NPQ.bind _ _ (fun _ => True) _ (h x (by simp)) (fun r _ => ?_)
+    refine NPQ.bind _ _ (fun _ => True) _ (ih (fun a ha => h a (by simp [ha]))) (fun r _ => ?_)
+    exact NPQ.pure _ (fun _ => True) trivial
 
-macro "np_bind" : tactic => `(tactic| refine NPQ.bind _ _ (fun _ => True) _ ?_ (fun _ _ => ?_))
+theorem NPQ.map {α β : Type} (f : α → β) (m : M α) (h : NP m) : NP (f <$> m) := by
+  rw [map_eq_pure_bind]
+  exact NPQ.bind _ _ (fun _ => True) _ h (fun _ _ => NPQ.pure _ (fun _ => True) trivial)
 
-theorem numberOf_np (t : Tok) : NP (numberOf t) := by
-  unfold numberOf
-  simp only
-  repeat' split
-  all_goals exact NPQ.pure _ (fun _ => True) trivial
+/-- extensible: lemmas about helper functions (`macro_rules` alternatives are tried in turn) -/
+syntax "np_lem" : tactic
+macro_rules | `(tactic| np_lem) => `(tactic| fail "no lemma")
 
-theorem goInt_np (x : Float) : NP (goInt x) := by
-  unfold goInt; split
-  · exact NPQ.throw _ _ (by simp)
-  · exact NPQ.pure _ _ trivial
+/-- one step of the syntax-directed proof search (unification at reducible transparency only: the
+    shape of the goal decides, nothing is unfolded) -/
+macro "np1" : tactic => `(tactic| first
+  | with_reducible np_lem
+  | with_reducible exact NPQ.pure _ (fun _ => True) trivial
+  | (with_reducible refine NPQ.throw _ _ ?_) <;> (first | exact rtErr_ne_panic _ _ | assumption | simp [plain, raiseSig])
+  | with_reducible exact NPQ.get'
+  | (with_reducible refine NPQ.set _ ?_) <;> assumption
+  | (with_reducible refine NPQ.modify _ ?_) <;> exact fun _ h => h
+  | with_reducible refine NPQ.map _ _ ?_
+  | with_reducible refine NPQ.forIn _ _ (fun _ _ _ => ?_) _
+  | with_reducible refine NPQ.foldlM _ _ (fun _ _ _ => ?_) _
+  | with_reducible refine NPQ.mapM _ _ (fun _ _ => ?_)
+  | with_reducible refine NPQ.bind (get : M St) _ Inv _ NPQ.get (fun _ _ => ?_)
+  | with_reducible refine NPQ.bind _ _ (fun _ => True) _ ?_ (fun _ _ => ?_)
+  | with_reducible solve_by_elim (maxDepth := 6)
+  | split
+  | dsimp only [Function.comp_apply])
+macro "np" : tactic => `(tactic| repeat' np1)
+/-- after `unfold` of a fuel-recursive function at fuel `g+1`: identify the matched fuel with `g` -/
+macro "np_fuel" : tactic => `(tactic| all_goals (simp only [Nat.succ_eq_add_one, Nat.add_right_cancel_iff] at *; subst_vars; np))
 
-section
-variable (f : Nat) (ih : ∀ sc n, Frag n → NP (eval f sc n))
-include ih
+theorem getBacking_np (r : Nat) : NP (getBacking r) := by unfold getBacking; np
+theorem setBacking_np (r : Nat) (b : List Val) : NP (setBacking r b) := by unfold setBacking; np
+theorem newBacking_np (b : List Val) : NP (newBacking b) := by unfold newBacking; np
+theorem getMap_np (r : Nat) : NP (getMap r) := by unfold getMap; np
+theorem setMap_np (r : Nat) (k : List (Val × Val)) : NP (setMap r k) := by unfold setMap; np
+theorem newMap_np (k : List (Val × Val)) : NP (newMap k) := by unfold newMap; np
+theorem getScope_np (i : Nat) : NP (getScope i) := by unfold getScope; np
+theorem setScope_np (i : Nat) (sc : Scope) : NP (setScope i sc) := by unfold setScope; np
+theorem newScope_np (nm : String) (p : Option Nat) : NP (newScope nm p) := by unfold newScope; np
+macro_rules | `(tactic| np_lem) => `(tactic| exact getBacking_np _)
+macro_rules | `(tactic| np_lem) => `(tactic| exact setBacking_np _ _)
+macro_rules | `(tactic| np_lem) => `(tactic| exact newBacking_np _)
+macro_rules | `(tactic| np_lem) => `(tactic| exact getMap_np _)
+macro_rules | `(tactic| np_lem) => `(tactic| exact setMap_np _ _)
+macro_rules | `(tactic| np_lem) => `(tactic| exact newMap_np _)
+macro_rules | `(tactic| np_lem) => `(tactic| exact getScope_np _)
+macro_rules | `(tactic| np_lem) => `(tactic| exact setScope_np _ _)
+macro_rules | `(tactic| np_lem) => `(tactic| exact newScope_np _ _)
 
-theorem numVal_step (sc : Nat) (n c : Node) (hc : n.children = [some c]) (fc : Frag c) (op : Float → Float) :
-    NP (numVal (f+1) sc n op) := by
-  unfold numVal
-  simp [hc, child]
-  np_bind
-  · exact ih sc c fc
-  · split
-    · exact NPQ.pure _ _ trivial
-    · exact NPQ.throw _ _ (rtErr_ne_panic _ _)
+theorem getList_np (r l : Nat) : NP (getList r l) := by unfold getList; np
+macro_rules | `(tactic| np_lem) => `(tactic| exact getList_np _ _)
+theorem appendVals_np (r l : Nat) (vs : List Val) : NP (appendVals r l vs) := by unfold appendVals; np
+macro_rules | `(tactic| np_lem) => `(tactic| exact appendVals_np _ _ _)
+theorem newListExact_np (vs : List Val) : NP (newListExact vs) := by unfold newListExact; np
+macro_rules | `(tactic| np_lem) => `(tactic| exact newListExact_np _)
+theorem newListLit_np (vs : List Val) : NP (newListLit vs) := by
+  unfold newListLit
+  simp only []
+  refine NPQ.bind _ _ (fun _ => True) _ ?_ (fun _ _ => ?_)
+  · apply NPQ.forIn; intro a _ b; np
+  · np
+macro_rules | `(tactic| np_lem) => `(tactic| exact newListLit_np _)
+theorem newChild_np (p : Nat) (nm : String) : NP (newChild p nm) := by unfold newChild; np
+macro_rules | `(tactic| np_lem) => `(tactic| exact newChild_np _ _)
+theorem scopeFor_np : ∀ (g sc : Nat) (v : String), NP (scopeFor g sc v) := by
+  intro g; induction g with
+  | zero => intro sc v; unfold scopeFor; np
+  | succ g ih => intro sc v; unfold scopeFor; np; np_fuel
+macro_rules | `(tactic| np_lem) => `(tactic| exact scopeFor_np _ _ _)
+theorem listIndex_np (fld : List Nat) (len : Nat) : NP (listIndex fld len) := by unfold listIndex; np
+macro_rules | `(tactic| np_lem) => `(tactic| exact listIndex_np _ _)
+theorem containerGet_np : ∀ (g : Nat) (p : List (List Nat)) (c : Val), NP (containerGet g p c) := by
+  intro g; induction g with
+  | zero => intro p c; unfold containerGet; np
+  | succ g ih => intro p c; unfold containerGet; np; np_fuel
+macro_rules | `(tactic| np_lem) => `(tactic| exact containerGet_np _ _ _)
+theorem lookupVar_np (sc : Nat) (v : String) : NP (lookupVar sc v) := by unfold lookupVar; np
+macro_rules | `(tactic| np_lem) => `(tactic| exact lookupVar_np _ _)
+theorem getValue_np (sc : Nat) (nm : List Nat) : NP (getValue sc nm) := by unfold getValue; np
+macro_rules | `(tactic| np_lem) => `(tactic| exact getValue_np _ _)
+theorem setVar_np (sc : Nat) (v : String) (x : Val) : NP (setVar sc v x) := by unfold setVar; np
+macro_rules | `(tactic| np_lem) => `(tactic| exact setVar_np _ _ _)
+theorem containerWalk_np : ∀ (g : Nat) (p : List (List Nat)) (c : Val), NP (containerWalk g p c) := by
+  intro g; induction g with
+  | zero => intro p c; unfold containerWalk; np
+  | succ g ih => intro p c; unfold containerWalk; np; np_fuel
+macro_rules | `(tactic| np_lem) => `(tactic| exact containerWalk_np _ _ _)
+theorem setValue_np (sc : Nat) (nm : List Nat) (x : Val) : NP (setValue sc nm x) := by unfold setValue; np
+macro_rules | `(tactic| np_lem) => `(tactic| exact setValue_np _ _ _)
+theorem setLocalValue_np (sc : Nat) (nm : List Nat) (x : Val) : NP (setLocalValue sc nm x) := by unfold setLocalValue; np
+macro_rules | `(tactic| np_lem) => `(tactic| exact setLocalValue_np _ _ _)
 
-theorem numOp_step (sc : Nat) (n a b : Node) (hc : n.children = [some a, some b]) (fa : Frag a) (fb : Frag b)
-    (op : Float → Float → Val) : NP (numOp (f+1) sc n op) := by
-  unfold numOp
-  simp [hc, child]
-  np_bind
-  · exact ih sc a fa
-  · np_bind
-    · exact ih sc b fb
-    · split
-      · exact NPQ.pure _ _ trivial
-      · exact NPQ.throw _ _ (rtErr_ne_panic _ _)
-      · exact NPQ.throw _ _ (rtErr_ne_panic _ _)
+/-! ### `Except`-level: the printer -/
+def EN {α : Type} (x : Except Sig α) : Prop := ∀ e, x = .error e → e ≠ Sig.panic
 
-theorem boolOp_step (sc : Nat) (n a b : Node) (hc : n.children = [some a, some b]) (fa : Frag a) (fb : Frag b)
-    (op : Bool → Bool → Bool) : NP (boolOp (f+1) sc n op) := by
-  unfold boolOp
-  simp [hc, child]
-  np_bind
-  · exact ih sc a fa
-  · np_bind
-    · exact ih sc b fb
-    · split
-      · exact NPQ.pure _ _ trivial
-      · exact NPQ.throw _ _ (rtErr_ne_panic _ _)
-      · exact NPQ.throw _ _ (rtErr_ne_panic _ _)
-end
+theorem EN.ok {α : Type} (a : α) : EN (Except.ok a : Except Sig α) := by intro e h; cases h
+theorem EN.pure {α : Type} (a : α) : EN (Pure.pure a : Except Sig α) := by intro e h; cases h
+theorem EN.error {α : Type} (e : Sig) (h : e ≠ Sig.panic) : EN (Except.error e : Except Sig α) := by
+  intro e' h'; cases h'; exact h
+theorem EN.throw {α : Type} (e : Sig) (h : e ≠ Sig.panic) : EN (throw e : Except Sig α) := EN.error e h
+theorem EN.bind {α β : Type} (x : Except Sig α) (f : α → Except Sig β) (hx : EN x) (hf : ∀ a, EN (f a)) : EN (x >>= f) := by
+  cases x with
+  | ok a => exact hf a
+  | error e => intro e' h'; cases h'; exact hx e rfl
+theorem EN.mapM {α β : Type} (f : α → Except Sig β) (h : ∀ a, EN (f a)) : ∀ l : List α, EN (l.mapM f) := by
+  intro l; induction l with
+  | nil => simp only [List.mapM_nil]; exact EN.pure _
+  | cons x xs ih =>
+    simp only [List.mapM_cons]
+    exact EN.bind _ _ (h x) (fun _ => EN.bind _ _ ih (fun _ => EN.pure _))
 
-theorem eval_zero_np (sc : Nat) (n : Node) : NP (eval 0 sc n) := by
-  unfold eval; exact NPQ.throw _ _ (by simp)
+theorem sprintNum_en (f : Float) : EN (sprintNum f) := by
+  unfold sprintNum; split
+  · exact EN.ok _
+  · exact EN.error _ (by simp)
+
+theorem sprintD_en (lists : Array (List Val)) (maps : Array (List (Val × Val))) : ∀ (d : Nat) (v : Val), EN (sprintD lists maps d v) := by
+  intro d; induction d with
+  | zero => intro v; unfold sprintD; exact EN.error _ (by simp)
+  | succ d ih =>
+    intro v
+    unfold sprintD
+    split
+    · exact EN.ok _
+    · exact EN.ok _
+    · exact EN.ok _
+    · exact EN.ok _
+    · exact sprintNum_en _
+    · exact EN.error _ (by simp)
+    · exact EN.bind _ _ (EN.mapM _ (ih) _) (fun _ => EN.pure _)
+    · dsimp only []
+      repeat' (first
+        | with_reducible exact EN.pure _
+        | with_reducible exact ih _
+        | (with_reducible refine EN.throw _ ?_) <;> simp
+        | with_reducible refine EN.mapM _ (fun _ => ?_) _
+        | with_reducible refine EN.bind _ _ ?_ (fun _ => ?_)
+        | split)
+    · exact EN.error _ (by simp)
+
+theorem sprint_np (v : Val) : NP (sprint v) := by
+  unfold sprint
+  refine NPQ.bind (get : M St) _ Inv _ NPQ.get (fun st _ => ?_)
+  have h := sprintD_en st.lists st.maps 60 v
+  split
+  · np
+  · next e he => exact NPQ.throw _ _ (h e he)
+macro_rules | `(tactic| np_lem) => `(tactic| exact sprint_np _)
+
+/-! ### values -/
+theorem deepEq_np : ∀ (g : Nat) (a b : Val), NP (deepEq g a b) := by
+  intro g; induction g with
+  | zero => intro a b; unfold deepEq; np
+  | succ g ih => intro a b; unfold deepEq; np
+macro_rules | `(tactic| np_lem) => `(tactic| exact deepEq_np _ _ _)
+theorem goEq_np (a b : Val) : NP (goEq a b) := by unfold goEq; np
+macro_rules | `(tactic| np_lem) => `(tactic| exact goEq_np _ _)
+theorem goInt_np (x : Float) : NP (goInt x) := by unfold goInt; np
+macro_rules | `(tactic| np_lem) => `(tactic| exact goInt_np _)
+theorem numberOf_np (t : Tok) : NP (numberOf t) := by unfold numberOf; np
+macro_rules | `(tactic| np_lem) => `(tactic| exact numberOf_np _)
+
+theorem Frag.tok {n : Node} (h : Frag n) : ∃ t, n.tok = some t := by
+  cases h <;> exact ⟨_, by assumption⟩
+theorem Frag.ident_inv {n : Node} (h : Frag n) (hn : n.name = "identifier") : ∃ t, n.tok = some t ∧ n.children = [] := by
+  cases h <;> simp_all
+
+theorem Frag.list_inv {n : Node} (h : Frag n) (hn : n.name = "list") :
+    ∃ kids : List Node, n.children = kids.map some ∧ ∀ c, c ∈ kids → Frag c := by
+  cases h <;> simp_all
+  all_goals exact ⟨_, rfl, by assumption⟩
+theorem Frag.let_inv {n : Node} (h : Frag n) (hn : n.name = "let") : ∃ lv, n.children = [some lv] ∧ Frag lv := by
+  cases h <;> simp_all
+theorem tokOf_np (n : Node) (h : Frag n) : NP (tokOf n) := by
+  obtain ⟨t, ht⟩ := Frag.tok h
+  simp [tokOf, ht]; np
+macro_rules | `(tactic| np_lem) => `(tactic| exact tokOf_np _ (by solve_by_elim (maxDepth := 4)))
+
+/-! ### control-flow combinators -/
+theorem ifChain_np : ∀ (l : List (M Val × M Val)), (∀ p, p ∈ l → NP p.1 ∧ NP p.2) → NP (ifChain l) := by
+  intro l; induction l with
+  | nil => intro _; unfold ifChain; np
+  | cons p rest ih =>
+    intro h
+    obtain ⟨g, b⟩ := p
+    unfold ifChain
+    refine NPQ.bind _ _ (fun _ => True) _ (h (g, b) (by simp)).1 (fun v _ => ?_)
+    split
+    · exact (h (g, b) (by simp)).2
+    · exact ih (fun p hp => h p (by simp [hp]))
+
+theorem guardLoop_np (guard body : M Val) (hg : NP guard) (hb : NP body) : ∀ k, NP (guardLoop guard body k) := by
+  intro k; induction k with
+  | zero => unfold guardLoop; np
+  | succ k ih =>
+    unfold guardLoop
+    refine NPQ.bind _ _ _ _ (NPQ.attemptE _ _ hg) (fun r hr => ?_)
+    split
+    · refine NPQ.bind _ _ _ _ (NPQ.attemptE _ _ hb) (fun r2 hr2 => ?_)
+      split
+      · exact ih
+      · next e =>
+        have he : e ≠ Sig.panic := hr2
+        np
+    · np
+    · next e =>
+      have he : e ≠ Sig.panic := hr
+      np
+
+theorem withFreshIs_np {α : Type} (m : M α) (hm : NP m) : NP (withFreshIs m) := by
+  unfold withFreshIs
+  refine NPQ.bind (get : M St) _ Inv _ NPQ.get (fun s hs => ?_)
+  dsimp only []
+  refine NPQ.bind _ _ (fun _ => True) _ (NPQ.set _ hs) (fun _ _ => ?_)
+  refine NPQ.bind _ _ _ _ (NPQ.attemptE _ _ hm) (fun r hr => ?_)
+  refine NPQ.bind _ _ (fun _ => True) _ (NPQ.modify _ (fun _ h => h)) (fun _ _ => ?_)
+  cases r with
+  | ok v => np
+  | error e =>
+    have he : e ≠ Sig.panic := hr
+    np
+
+theorem scopeName_np (n : Node) (t : Tok) (ht : n.tok = some t) : NP (scopeName n) := by
+  unfold scopeName; simp [tokOf, ht]; np
 
 abbrev IH (g : Nat) : Prop := ∀ g', g' < g → ∀ sc n, Frag n → NP (eval g' sc n)
 
-theorem numVal_any (g : Nat) (ih : IH g) (sc : Nat) (n c : Node) (hc : n.children = [some c]) (fc : Frag c)
-    (op : Float → Float) : NP (numVal g sc n op) := by
-  cases g with
-  | zero => unfold numVal; exact NPQ.throw _ _ (by simp)
-  | succ g => exact numVal_step g (ih g (by omega)) sc n c hc fc op
+section ops
+variable (g : Nat) (ihs : ∀ g', g' ≤ g → ∀ sc n, Frag n → NP (eval g' sc n))
+include ihs
 
-theorem numOp_any (g : Nat) (ih : IH g) (sc : Nat) (n a b : Node) (hc : n.children = [some a, some b])
-    (fa : Frag a) (fb : Frag b) (op : Float → Float → Val) : NP (numOp g sc n op) := by
+theorem numVal_step (sc : Nat) (n c : Node) (hc : n.children = [some c]) (fc : Frag c) (op : Float → Float) :
+    NP (numVal (g+1) sc n op) := by
+  have ih := ihs g (Nat.le_refl g)
+  unfold numVal; simp [hc, child]; np
+theorem numOp_step (sc : Nat) (n a b : Node) (hc : n.children = [some a, some b]) (fa : Frag a) (fb : Frag b)
+    (op : Float → Float → Val) : NP (numOp (g+1) sc n op) := by
+  have ih := ihs g (Nat.le_refl g)
+  unfold numOp; simp [hc, child]; np
+theorem numOp_any (sc : Nat) (n a b : Node) (hc : n.children = [some a, some b]) (fa : Frag a) (fb : Frag b)
+    (op : Float → Float → Val) : NP (numOp g sc n op) := by
   cases g with
-  | zero => unfold numOp; exact NPQ.throw _ _ (by simp)
-  | succ g => exact numOp_step g (ih g (by omega)) sc n a b hc fa fb op
-
-theorem boolOp_any (g : Nat) (ih : IH g) (sc : Nat) (n a b : Node) (hc : n.children = [some a, some b])
-    (fa : Frag a) (fb : Frag b) (op : Bool → Bool → Bool) : NP (boolOp g sc n op) := by
+  | zero => unfold numOp; np
+  | succ g' => exact numOp_step g' (fun g'' h => ihs g'' (by omega)) sc n a b hc fa fb op
+theorem boolOp_step (sc : Nat) (n a b : Node) (hc : n.children = [some a, some b]) (fa : Frag a) (fb : Frag b)
+    (op : Bool → Bool → Bool) : NP (boolOp (g+1) sc n op) := by
+  have ih := ihs g (Nat.le_refl g)
+  unfold boolOp; simp [hc, child]; np
+theorem strOp_step (sc : Nat) (n a b : Node) (hc : n.children = [some a, some b]) (fa : Frag a) (fb : Frag b)
+    (op : List Nat → List Nat → Bool) : NP (strOp (g+1) sc n op) := by
+  have ih := ihs g (Nat.le_refl g)
+  unfold strOp; simp [hc, child]; np
+theorem inOp_step (sc : Nat) (n a b : Node) (hc : n.children = [some a, some b]) (fa : Frag a) (fb : Frag b) :
+    NP (inOp (g+1) sc n) := by
+  have ih := ihs g (Nat.le_refl g)
+  unfold inOp; simp [hc, child]; np
+theorem cmpOp_step (sc : Nat) (n a b : Node) (hc : n.children = [some a, some b]) (fa : Frag a) (fb : Frag b)
+    (nop : Float → Float → Bool) (sop : List Nat → List Nat → Bool) : NP (cmpOp (g+1) sc n nop sop) := by
+  have ih := ihs g (Nat.le_refl g)
+  unfold cmpOp
+  refine NPQ.bind _ _ _ _ (NPQ.attemptE _ _ (numOp_any g ihs sc n a b hc fa fb _)) (fun r hr => ?_)
+  cases r with
+  | ok v => np
+  | error e =>
+    have he : e ≠ Sig.panic := hr
+    simp [hc, child]; np
+theorem identSet_step (sc : Nat) (n : Node) (t : Tok) (ht : n.tok = some t) (hc : n.children = []) (v : Val) :
+    NP (identSet (g+1) sc n v) := by
+  have ih := ihs g (Nat.le_refl g)
+  unfold identSet; simp [hc, ht, tokOf]; np
+theorem identSet_any0 (sc : Nat) (n : Node) (t : Tok) (ht : n.tok = some t) (hc : n.children = []) (v : Val) :
+    NP (identSet g sc n v) := by
   cases g with
-  | zero => unfold boolOp; exact NPQ.throw _ _ (by simp)
-  | succ g => exact boolOp_step g (ih g (by omega)) sc n a b hc fa fb op
+  | zero => unfold identSet; np
+  | succ g' => exact identSet_step g' (fun g'' h => ihs g'' (by omega)) sc n t ht hc v
+theorem evalAssign_step (sc : Nat) (n lhs rhs : Node) (hc : n.children = [some lhs, some rhs])
+    (hl : lhs.name = "identifier") (fl : Frag lhs) (fr : Frag rhs) : NP (evalAssign (g+1) sc n) := by
+  have ih := ihs g (Nat.le_refl g)
+  obtain ⟨tl, htl, hcl⟩ := Frag.ident_inv fl hl
+  unfold evalAssign; simp [hc, child, hl]; np
+  all_goals exact identSet_any0 g ihs sc lhs tl htl hcl _
+theorem evalAssignLet_step (sc : Nat) (n lhs lv rhs : Node) (hc : n.children = [some lhs, some rhs])
+    (hl : lhs.name = "let") (hlc : lhs.children = [some lv]) (hlv : lv.name = "identifier") (flv : Frag lv)
+    (fl : Frag lhs) (fr : Frag rhs) : NP (evalAssign (g+1) sc n) := by
+  have ih := ihs g (Nat.le_refl g)
+  obtain ⟨tl, htl, hcl⟩ := Frag.ident_inv flv hlv
+  unfold evalAssign; simp [hc, child, hl, hlc, hlv]; np
+  all_goals exact identSet_any0 g ihs sc lv tl htl hcl _
+theorem evalIdent_step (sc : Nat) (n : Node) (t : Tok) (ht : n.tok = some t) (hc : n.children = []) :
+    NP (evalIdent (g+1) sc n) := by
+  have ih := ihs g (Nat.le_refl g)
+  unfold evalIdent; simp [hc, ht, tokOf]; np
+theorem numVal_any (sc : Nat) (n c : Node) (hc : n.children = [some c]) (fc : Frag c) (op : Float → Float) : NP (numVal g sc n op) := by
+  cases g with
+  | zero => unfold numVal; np
+  | succ g' => exact numVal_step g' (fun g'' h => ihs g'' (by omega)) sc n c hc fc op
+theorem boolOp_any (sc : Nat) (n a b : Node) (hc : n.children = [some a, some b]) (fa : Frag a) (fb : Frag b) (op : Bool → Bool → Bool) : NP (boolOp g sc n op) := by
+  cases g with
+  | zero => unfold boolOp; np
+  | succ g' => exact boolOp_step g' (fun g'' h => ihs g'' (by omega)) sc n a b hc fa fb op
+theorem strOp_any (sc : Nat) (n a b : Node) (hc : n.children = [some a, some b]) (fa : Frag a) (fb : Frag b) (op : List Nat → List Nat → Bool) : NP (strOp g sc n op) := by
+  cases g with
+  | zero => unfold strOp; np
+  | succ g' => exact strOp_step g' (fun g'' h => ihs g'' (by omega)) sc n a b hc fa fb op
+theorem cmpOp_any (sc : Nat) (n a b : Node) (hc : n.children = [some a, some b]) (fa : Frag a) (fb : Frag b) (nop : Float → Float → Bool) (sop : List Nat → List Nat → Bool) : NP (cmpOp g sc n nop sop) := by
+  cases g with
+  | zero => unfold cmpOp; np
+  | succ g' => exact cmpOp_step g' (fun g'' h => ihs g'' (by omega)) sc n a b hc fa fb nop sop
+theorem inOp_any (sc : Nat) (n a b : Node) (hc : n.children = [some a, some b]) (fa : Frag a) (fb : Frag b) : NP (inOp g sc n) := by
+  cases g with
+  | zero => unfold inOp; np
+  | succ g' => exact inOp_step g' (fun g'' h => ihs g'' (by omega)) sc n a b hc fa fb
+theorem evalIdent_any (sc : Nat) (n : Node) (t : Tok) (ht : n.tok = some t) (hc : n.children = []) : NP (evalIdent g sc n) := by
+  cases g with
+  | zero => unfold evalIdent; np
+  | succ g' => exact evalIdent_step g' (fun g'' h => ihs g'' (by omega)) sc n t ht hc
+theorem ifBranches_any (sc : Nat) : ∀ (pairs : List (Node × Node)), (∀ p, p ∈ pairs → Frag p.1) → (∀ p, p ∈ pairs → Frag p.2) →
+    ∀ k, k ≤ g + 1 → NPQ (ifBranches k sc (pairs.flatMap (fun p => [some p.1, some p.2])))
+      (fun l => ∀ q, q ∈ l → NP q.1 ∧ NP q.2) := by
+  intro pairs; induction pairs with
+  | nil =>
+    intro _ _ k _
+    cases k with
+    | zero => unfold ifBranches; exact NPQ.throw _ _ (by simp)
+    | succ k => simp only [List.flatMap_nil]; unfold ifBranches; exact NPQ.pure _ _ (by intro q hq; simp at hq)
+  | cons p rest ihp =>
+    intro hg hb k hk
+    cases k with
+    | zero => unfold ifBranches; exact NPQ.throw _ _ (by simp)
+    | succ k =>
+      simp only [List.flatMap_cons, List.cons_append, List.nil_append]
+      unfold ifBranches
+      refine NPQ.bind _ _ _ _ (ihp (fun q hq => hg q (by simp [hq])) (fun q hq => hb q (by simp [hq])) k (by omega)) (fun l hl => ?_)
+      refine NPQ.pure _ _ ?_
+      intro q hq
+      simp only [List.mem_cons] at hq
+      rcases hq with hq | hq
+      · subst hq
+        exact ⟨ihs k (by omega) sc _ (hg p (by simp)), ihs k (by omega) sc _ (hb p (by simp))⟩
+      · exact hl q hq
+theorem evalLoopGuard_step (sc : Nat) (n c0 body : Node) (t : Tok) (ht : n.tok = some t)
+    (hc : n.children = [some c0, some body]) (h0 : c0.name = "guard") (f0 : Frag c0) (fb : Frag body) :
+    NP (evalLoop (g+1) sc n) := by
+  have ih := ihs g (Nat.le_refl g)
+  unfold evalLoop; simp [hc, child, h0]
+  refine NPQ.bind _ _ (fun _ => True) _ (scopeName_np n t ht) (fun _ _ => ?_)
+  refine NPQ.bind _ _ (fun _ => True) _ (newChild_np _ _) (fun ls _ => ?_)
+  exact withFreshIs_np _ (guardLoop_np _ _ (ih ls c0 f0) (ih ls body fb) g)
+theorem interpolate_any (sc : Nat) (n : Node) (t : Tok) (ht : n.tok = some t) :
+    ∀ k, k ≤ g + 1 → ∀ rest, NP (interpolate k sc n rest) := by
+  intro k; induction k with
+  | zero => intro _ rest; unfold interpolate; np
+  | succ k ihk =>
+    intro hk rest
+    have ihk' := ihk (by omega)
+    unfold interpolate
+    split
+    · np
+    · try dsimp only []
+      split
+      · np
+      · try dsimp only []
+        refine NPQ.bind (get : M St) _ Inv _ NPQ.get (fun st hst => ?_)
+        refine NPQ.bind _ _ (fun _ => True) _ ?_ (fun repl _ => ?_)
+        · split
+          · np
+          · np
+          · rename_i heq
+            have fa := hst.2 _ _ (List.mem_of_find?_eq_some heq)
+            refine NPQ.bind _ _ (fun _ => True) _ (scopeName_np n t ht) (fun _ _ => ?_)
+            refine NPQ.bind _ _ (fun _ => True) _ (newChild_np _ _) (fun cs _ => ?_)
+            refine NPQ.bind _ _ _ _ (NPQ.attemptE _ _ (withFreshIs_np _ (ihs k (by omega) cs _ fa))) (fun r hr => ?_)
+            cases r with
+            | ok v => dsimp only []; np
+            | error e => have he : e ≠ Sig.panic := hr; dsimp only []; np
+        · np
+end ops
 
 theorem eval_frag_np : ∀ (f sc : Nat) (n : Node), Frag n → NP (eval f sc n) := by
   intro f
@@ -165,92 +544,135 @@ theorem eval_frag_np : ∀ (f sc : Nat) (n : Node), Frag n → NP (eval f sc n) 
   | _ f ih =>
     intro sc n hn
     cases f with
-    | zero => exact eval_zero_np sc n
+    | zero => unfold eval; np
     | succ f =>
-      have ihf : IH f := fun g' hg => ih g' (by omega)
+      have ihs : ∀ g', g' ≤ f → ∀ sc n, Frag n → NP (eval g' sc n) := fun g' hg => ih g' (by omega)
       have ih0 : ∀ sc n, Frag n → NP (eval f sc n) := ih f (by omega)
       cases hn with
-      | const n h => rcases h with h | h | h <;> (unfold eval; simp [h]; exact NPQ.pure _ (fun _ => True) trivial)
-      | number n t h ht =>
-        unfold eval; simp [h, tokOf, ht]
-        exact NPQ.bind _ _ (fun _ => True) _ (numberOf_np t) (fun _ _ => NPQ.pure _ (fun _ => True) trivial)
-      | rawString n t h ht hr =>
-        unfold eval; simp [h, tokOf, ht, hr]; exact NPQ.pure _ (fun _ => True) trivial
-      | unary n c h hc fc =>
+      | const n t ht h => rcases h with h | h | h <;> (unfold eval; simp [h]; np)
+      | number n t ht h => unfold eval; simp [h, tokOf, ht]; np
+      | rawString n t ht h hr => unfold eval; simp [h, tokOf, ht, hr]; np
+      | unary n t c ht h hc fc =>
         rcases h with h | h | h | h
-        · unfold eval; simp [h, hc]; exact numVal_any f ihf sc n c hc fc _
-        · unfold eval; simp [h, hc]; exact numVal_any f ihf sc n c hc fc _
-        · unfold eval; simp [h, hc, child]
-          np_bind
-          · exact ih0 sc c fc
-          · split
-            · exact NPQ.pure _ (fun _ => True) trivial
-            · exact NPQ.throw _ _ (rtErr_ne_panic _ _)
-        · unfold eval; simp [h, hc, child]
-          np_bind
-          · exact ih0 sc c fc
-          · exact NPQ.pure _ (fun _ => True) trivial
-      | signal n h =>
-        rcases h with h | h <;> (unfold eval; simp [h]; exact NPQ.throw _ _ (rtErr_ne_panic _ _))
-      | ret0 n h hc =>
+        · unfold eval; simp [h, hc]; exact numVal_any f ihs sc n c hc fc _
+        · unfold eval; simp [h, hc]; exact numVal_any f ihs sc n c hc fc _
+        · unfold eval; simp [h, hc, child]; np
+        · unfold eval; simp [h, hc, child]; np
+      | binary n t a b ht h hc fa fb =>
+        rcases h with h | h | h | h | h | h | h | h | h | h | h | h | h | h | h | h | h | h
+        · unfold eval; simp [h, hc]; exact numOp_any f ihs sc n a b hc fa fb _
+        · unfold eval; simp [h, hc]; exact numOp_any f ihs sc n a b hc fa fb _
+        · unfold eval; simp [h]; exact numOp_any f ihs sc n a b hc fa fb _
+        · unfold eval; simp [h]; exact numOp_any f ihs sc n a b hc fa fb _
+        · unfold eval; simp [h]; exact numOp_any f ihs sc n a b hc fa fb _
+        · unfold eval; simp [h, hc, child]; np
+        · unfold eval; simp [h]; exact boolOp_any f ihs sc n a b hc fa fb _
+        · unfold eval; simp [h]; exact boolOp_any f ihs sc n a b hc fa fb _
+        · unfold eval; simp [h, hc, child]; np
+        · unfold eval; simp [h, hc, child]; np
+        · unfold eval; simp [h]; exact cmpOp_any f ihs sc n a b hc fa fb _ _
+        · unfold eval; simp [h]; exact cmpOp_any f ihs sc n a b hc fa fb _ _
+        · unfold eval; simp [h]; exact cmpOp_any f ihs sc n a b hc fa fb _ _
+        · unfold eval; simp [h]; exact cmpOp_any f ihs sc n a b hc fa fb _ _
+        · unfold eval; simp [h]; exact inOp_any f ihs sc n a b hc fa fb
+        · unfold eval; simp [h]
+          exact NPQ.bind _ _ (fun _ => True) _ (inOp_any f ihs sc n a b hc fa fb) (fun _ _ => by np)
+        · unfold eval; simp [h]; exact strOp_any f ihs sc n a b hc fa fb _
+        · unfold eval; simp [h]; exact strOp_any f ihs sc n a b hc fa fb _
+      | signal n t ht h => rcases h with h | h <;> (unfold eval; simp [h]; np)
+      | ret0 n t ht h hc => unfold eval; simp [h, hc]; np
+      | ret1 n t c ht h hc fc => unfold eval; simp [h, hc, child]; np
+      | statements n t kids ht h hc hk => unfold eval; simp [h, hc]; np
+      | list n t kids ht h hc hk => unfold eval; simp [h, hc]; np
+      | map n t kids ht h hc hk =>
         unfold eval; simp [h, hc]
-        split
-        · exact NPQ.throw _ _ (by simp)
-        · next hne => exact NPQ.throw _ _ (by intro hp; have := rtErr_ne_panic tReturn n; simp_all)
-      | ret1 n c h hc fc =>
+        refine NPQ.bind _ _ (fun _ => True) _ ?_ (fun _ _ => by np)
+        apply NPQ.forIn; intro a ha y
+        cases hk a ha with
+        | bad c hb =>
+          have hb' : ¬a.name = "kvp" ∨ ¬a.children.length = 2 := hb
+          simp only [hb', if_true]; np
+        | kvp c k v hcc fk fv => simp [hcc, child]; np
+      | ident0 n t ht h hc => unfold eval; simp [h]; exact evalIdent_any f ihs sc n t ht hc
+      | assign n t lhs rhs ht h hc hl fl fr =>
+        unfold eval; simp [h]
+        cases f with
+        | zero => unfold evalAssign; np
+        | succ f' => exact evalAssign_step f' (fun g'' hg => ihs g'' (by omega)) sc n lhs rhs hc hl fl fr
+      | assignLet n t lhs lv rhs ht h hc hl hlc hlv flv fl fr =>
+        unfold eval; simp [h]
+        cases f with
+        | zero => unfold evalAssign; np
+        | succ f' => exact evalAssignLet_step f' (fun g'' hg => ihs g'' (by omega)) sc n lhs lv rhs hc hl hlc hlv flv fl fr
+      | letN n t lv ht h hc fl =>
         unfold eval; simp [h, hc, child]
-        np_bind
-        · exact ih0 sc c fc
+        split
+        · np
         · split
-          · exact NPQ.throw _ _ (by simp)
-          · next hne => exact NPQ.throw _ _ (by intro hp; have := rtErr_ne_panic tReturn n; simp_all)
-      | statements n kids h hc hk =>
-        unfold eval; simp [h, hc]
-        exact NPQ.foldlM kids _ (fun a ha _ => ih0 sc a (hk a ha)) _
-      | binary n a b h hc fa fb =>
-        rcases h with h | h | h | h | h | h | h | h
-        · unfold eval; simp [h, hc]; exact numOp_any f ihf sc n a b hc fa fb _
-        · unfold eval; simp [h, hc]; exact numOp_any f ihf sc n a b hc fa fb _
-        · unfold eval; simp [h]; exact numOp_any f ihf sc n a b hc fa fb _
-        · unfold eval; simp [h]; exact numOp_any f ihf sc n a b hc fa fb _
-        · unfold eval; simp [h]; exact numOp_any f ihf sc n a b hc fa fb _
-        · unfold eval; simp [h, hc, child]
-          np_bind
-          · exact ih0 sc a fa
-          · np_bind
-            · exact ih0 sc b fb
-            · split
-              · np_bind
-                · exact goInt_np _
-                · np_bind
-                  · exact goInt_np _
-                  · split
-                    · exact NPQ.throw _ _ (rtErr_ne_panic _ _)
-                    · exact NPQ.pure _ (fun _ => True) trivial
-              · exact NPQ.throw _ _ (rtErr_ne_panic _ _)
-              · exact NPQ.throw _ _ (rtErr_ne_panic _ _)
-        · unfold eval; simp [h]; exact boolOp_any f ihf sc n a b hc fa fb _
-        · unfold eval; simp [h]; exact boolOp_any f ihf sc n a b hc fa fb _
+          · rename_i hl
+            obtain ⟨kids, hk, hf⟩ := Frag.list_inv fl hl
+            simp [hk]; np
+          · np
+      | ifN n t pairs ht h hc hg hb =>
+        unfold eval; simp [h]
+        refine NPQ.bind _ _ (fun _ => True) _ (scopeName_np n t ht) (fun _ _ => ?_)
+        refine NPQ.bind _ _ (fun _ => True) _ (newChild_np _ _) (fun bs _ => ?_)
+        rw [hc]
+        exact NPQ.bind _ _ _ _ (ifBranches_any f ihs bs pairs hg hb f (by omega)) (fun l hl => ifChain_np l hl)
+      | loopGuard n t c0 body ht h hc h0 f0 fb =>
+        unfold eval; simp [h]
+        cases f with
+        | zero => unfold evalLoop; np
+        | succ f' => exact evalLoopGuard_step f' (fun g'' hg => ihs g'' (by omega)) sc n c0 body t ht hc h0 f0 fb
+      | istring n t ht h =>
+        unfold eval; simp [h, tokOf, ht]
+        split
+        · exact NPQ.map _ _ (interpolate_any f ihs sc n t ht f (by omega) _)
+        · np
+      | inert n t ht h =>
+        rcases h with h | h | h | h | h | h | h | h | h | h | h | h | h <;> (unfold eval; simp [h]; np)
 
 /-- the statement in the shape used by `Props/C06.lean` -/
-theorem eval_frag_no_panic (f sc : Nat) (n : Node) (hn : Frag n) (s : St) :
-    ((eval f sc n).run.run s).1 ≠ .error Sig.panic := by
-  have h := eval_frag_np f sc n hn s
+theorem eval_frag_no_panic (f sc : Nat) (n : Node) (hn : Frag n) (s : St) (hs : Inv s) :
+    ((eval f sc n).run.run s).1 ≠ .error Sig.panic ∧ Inv ((eval f sc n).run.run s).2 := by
+  have h := eval_frag_np f sc n hn s hs
+  refine ⟨?_, h.1⟩
   intro he
-  rw [he] at h
-  exact h rfl
+  have h2 := h.2
+  rw [he] at h2
+  exact h2 rfl
+
+theorem inv_empty : Inv {} := by
+  constructor
+  · intro fr h; simp at h
+  · intro c n h; simp at h
 
 def exTok (v : List Nat) : Tok :=
   { id := 0, pos := 0, val := v, identifier := false, allowEscapes := false, prefixNl := 0, line := 1, col := 1 }
 def exNode (name : String) (v : List Nat) (kids : List (Option Node)) : Node :=
   Node.mk name (some (exTok v)) 0 default default kids []
-/-- `not (5 % true)` -/
+/-- `a := [not (5 % true), {1}]` -/
 def fragExample : Node :=
-  exNode "not" [] [some (exNode "modint" [37] [some (exNode "number" [53] []), some (exNode "true" [] [])])]
+  exNode ":=" [] [some (exNode "identifier" [97] []),
+    some (exNode "list" [] [
+      some (exNode "not" [] [some (exNode "modint" [37] [some (exNode "number" [53] []), some (exNode "true" [] [])])]),
+      some (exNode "map" [] [some (exNode "number" [49] [])])])]
 
-theorem fragExample_ok : Frag fragExample :=
-  Frag.unary _ _ (Or.inr (Or.inr (Or.inl rfl))) rfl
-    (Frag.binary _ _ _ (Or.inr (Or.inr (Or.inr (Or.inr (Or.inr (Or.inl rfl)))))) rfl
-      (Frag.number _ (exTok [53]) rfl rfl) (Frag.const _ (Or.inl rfl)))
+theorem fragExample_ok : Frag fragExample := by
+  refine Frag.assign _ (exTok []) (exNode "identifier" [97] []) _ rfl rfl rfl rfl (Frag.ident0 _ (exTok [97]) rfl rfl rfl) ?_
+  refine Frag.list _ (exTok []) [_, _] rfl rfl rfl ?_
+  intro c hc
+  simp only [List.mem_cons, List.not_mem_nil, or_false] at hc
+  rcases hc with hc | hc
+  · subst hc
+    exact Frag.unary _ (exTok []) _ rfl (Or.inr (Or.inr (Or.inl rfl))) rfl
+      (Frag.binary _ (exTok [37]) _ _ rfl (Or.inr (Or.inr (Or.inr (Or.inr (Or.inr (Or.inl rfl)))))) rfl
+        (Frag.number _ (exTok [53]) rfl rfl) (Frag.const _ (exTok []) rfl (Or.inl rfl)))
+  · subst hc
+    refine Frag.map _ (exTok []) [_] rfl rfl rfl ?_
+    intro e he
+    simp only [List.mem_cons, List.not_mem_nil, or_false] at he
+    subst he
+    exact FragEntry.bad _ (Or.inl (by decide))
 
 end Ecal.Lemmas.C06
